@@ -33,14 +33,15 @@ def families(tier, seed):
         def run(sh=sh):
             return harness.verify(ce.h_add_to_visited, sh, {})
         out.append(dict(name=f'_add_to_visited {sh.name}', run=run, label='per-shape'))
-    n = 200 if tier == 'quick' else 1600
-    for i in range(4):
+    n = 200 if tier == 'quick' else 6400
+    parts = 4 if tier == 'quick' else 16
+    for i in range(parts):
         out.append(dict(name=f'enumerated graphs of synthesized Streett implementations part {i}',
-                        run=ce.enumeration_on_implementations('streett', seed * 10 + i, n // 4), label='bounded'))
+                        run=ce.enumeration_on_implementations('streett', seed * 100 + i, n // parts), label='bounded'))
     out.append(dict(name='enumerated graphs of hand-made actions', run=ce.enumeration_handmade(), label='bounded'))
     return out
 
 
 def coverage_extra(results):
     graphs = sum((r.get('bounded') or {}).get('graphs', 0) for r in results)
-    return dict(graphs_checked=graphs, bounded_parameters=dict(declaration_shape='3 shapes (helpers)', graphs='seeded: 40 games quick / 400 thorough + 24 hand-made'))
+    return dict(graphs_checked=graphs, bounded_parameters=dict(declaration_shape='3 shapes (helpers)', graphs='seeded: 200 games quick / 6400 thorough + hand-made actions x 4 qinit x Moore/Mealy, each enumerated twice'))
